@@ -49,6 +49,11 @@ DISPATCH = {
 
 
 def run(ctx, obs):
+    # Kendall tau-a: the second sort (by x) must keep the y-order inside x-ties, which the first sort established - both go
+    # through _sort_and_rank, so its argsort has to be a stable one
+    from ..rules.containers import stable_sorts
+    if stable_sorts(ctx, obs, 'rdm.compare._sort_and_rank') == 0:
+        obs.unk('SORT-stable', 'rdm.compare._sort_and_rank', 'argsort', 'no argsort call')
     from ..rules.ranks import tie_averaged
     for _fn in ('compare_spearman', 'compare_rho_a'):
         tie_averaged(ctx, obs, 'rdm.compare.' + _fn)
